@@ -711,6 +711,31 @@ func writerScenario(s *Sim, params map[string]string) {
 		}
 	}
 
+	// a partition is without a leader for a while (election in progress: the
+	// metadata lists it with leader -1 and LEADER_NOT_AVAILABLE) while the
+	// other partitions of its topic carry on
+	if t.Intn("elect", 4) == 0 {
+		for i := 0; i < t.Range("elect", 1, 2); i++ {
+			at := time.Duration(t.Range("elect", 20, 3000)) * time.Millisecond
+			dur := time.Duration(t.Range("elect", 50, 2000)) * time.Millisecond
+			tn := topics[t.Intn("elect", len(topics))]
+			pi := t.Intn("elect", len(cl.Topics[tn].Parts))
+			to := int32(1 + t.Intn("elect", nb))
+			s.After(at, "leader-election", func() {
+				p := cl.Topics[tn].Parts[pi]
+				if p.Leader < 0 {
+					return
+				}
+				cl.DeposeLeader(p)
+				s.Count("fault:leader-election")
+				s.After(dur, "leader-elected", func() {
+					p.Err = 0
+					cl.MoveLeader(p, to)
+				})
+			})
+		}
+	}
+
 	nact := t.Range("cfg", 1, 4)
 	keys := [][]byte{nil, {}, []byte("k1"), []byte("key-two"), []byte("\xff\x80k3"), []byte("kkkk")}
 	for a := 0; a < nact; a++ {
